@@ -110,6 +110,10 @@ func (x *Exec) strConcat(a, b *smt.Term) *smt.Term {
 	B := x.B
 	r := B.UF("strcat", StrS, a, b)
 	x.assumeGlobal(B.Eq(x.strLen(r), B.BVBin("bvadd", x.strLen(a), x.strLen(b))))
+	// the empty string is the unit of concatenation
+	empty := x.strConst("")
+	x.assumeGlobal(B.Implies(B.Eq(b, empty), B.Eq(r, a)))
+	x.assumeGlobal(B.Implies(B.Eq(a, empty), B.Eq(r, b)))
 	return r
 }
 func (x *Exec) strSub(s, lo, hi *smt.Term) *smt.Term {
@@ -384,8 +388,6 @@ func (x *Exec) registerLib() {
 		}, mods: noMods}
 	}
 	for _, n := range []string{
-		"github.com/cosmos72/gomacro/base/reflect.IsCategory",
-		"github.com/cosmos72/gomacro/base/reflect.Category",
 		"github.com/cosmos72/gomacro/base/reflect.ValueType",
 		"github.com/cosmos72/gomacro/base/reflect.IsOptimizedKind",
 		"(github.com/cosmos72/gomacro/xreflect.Type).ReflectType",
@@ -416,6 +418,39 @@ func (x *Exec) registerLib() {
 			ft := su.Field(i).Type()
 			v := x.load(st, x.fieldAddr(args[0], stT, i), ft).(*smt.Term)
 			res = B.And(res, B.Eq(v, B.BVC(0, v.S.W)))
+		}
+		return res, true
+	}, mods: noMods}
+	// base/reflect.Category: the representative kind of a kind (its definition, as a term)
+	x.lib["github.com/cosmos72/gomacro/base/reflect.Category"] = &libFn{apply: func(f *Frame, st *State, ins ssa.Instruction, args []Value) (Value, bool) {
+		k := args[0].(*smt.Term)
+		w := k.S.W
+		in := func(lo, hi uint64) *smt.Term {
+			return B.And(B.BVCmp("bvule", B.BVC(lo, w), k), B.BVCmp("bvule", k, B.BVC(hi, w)))
+		}
+		r := B.Ite(in(kInt, kInt64), B.BVC(kInt, w),
+			B.Ite(in(kUint, kUintptr), B.BVC(kUint, w),
+				B.Ite(in(kFloat32, kFloat64), B.BVC(kFloat64, w),
+					B.Ite(in(kComplex64, kComplex128), B.BVC(kComplex128, w), k))))
+		return r, true
+	}, mods: noMods}
+	// base/reflect.IsCategory(k, cats...): Category(k) is one of cats (its definition, unrolled over
+	// the variadic slice, whose length is a literal at every call site of the package)
+	x.lib["github.com/cosmos72/gomacro/base/reflect.IsCategory"] = &libFn{apply: func(f *Frame, st *State, ins ssa.Instruction, args []Value) (Value, bool) {
+		cat, _ := x.lib["github.com/cosmos72/gomacro/base/reflect.Category"].apply(f, st, ins, args[:1])
+		ck := cat.(*smt.Term)
+		arr, off, ln, _ := sliceParts(args[1])
+		if !ln.IsConst() || ln.Val > 8 {
+			unsupported("IsCategory with a category list of unknown length")
+		}
+		fn := x.curCallee
+		et := fn.Params[1].Type().Underlying().(*types.Slice).Elem()
+		res := B.False()
+		for i := uint64(0); i < ln.Val; i++ {
+			idx := B.BVC(i, 64)
+			p := &Ptr{Arr: arr, Idx: B.IndexAdd(off, idx), Off: off, Rel: idx, Key: "[]" + typeKey(et), Type: et}
+			e := x.load(st, p, et).(*smt.Term)
+			res = B.Or(res, B.Eq(ck, e))
 		}
 		return res, true
 	}, mods: noMods}
